@@ -434,9 +434,13 @@ class _State:
         V = VARIANTS[adt]
 
         def closure(k):
+            """The callable handed to the combinator: (closure body, captures) or ('fn', fn-item operand)."""
             if len(ops) <= k:
                 return None
-            cl = self.closure_of(ops[k])
+            o = ops[k]
+            if o.get("k") == "const" and o.get("fn"):
+                return ("fn", o)
+            cl = self.closure_of(o)
             if cl is None:
                 return None
             f = self.facts.fn(cl[0])
@@ -459,6 +463,18 @@ class _State:
 
         def closure_block(cl, args, wrap=None):
             nb = self.new_block([], _goto(target, line), i)
+            if cl[0] == "fn":
+                # a function item (`map_err(MqttError::from)`): an ordinary call; it may be inlined in its turn
+                fo = cl[1]
+                if wrap:
+                    tmp = self.new_local("?mapped")
+                    fin = self.new_block([_assign(copy.deepcopy(dest), _adt(wrap[0], wrap[1], VARIANTS[wrap[0]][wrap[1]], [_mv(tmp)]), line)], _goto(target, line), i)
+                    cdest, ctarget = _pl(tmp), fin
+                else:
+                    cdest, ctarget = copy.deepcopy(dest), target
+                self.blocks[nb]["term"] = {"k": "call", "callee": copy.deepcopy(fo["fn"]), "fn_op": copy.deepcopy(fo), "ops": [copy.deepcopy(a) for a in args],
+                                           "dest": cdest, "t": ctarget, "cline": line, "cexp": False, "line": line, "exp": False}
+                return nb
             self._splice_closure(nb, self.blocks[nb], cl[0], cl[1], args, dest, target, depth, stack, line, wrap=wrap)
             return nb
 
@@ -538,7 +554,7 @@ class _State:
                 bn = closure_block(cl, [] if adt == OPTION else [{"k": "move", "pl": payload("Err")}])
                 switch_on_x(bp, bn)
                 return True
-            if meth == "filter" and adt == OPTION:
+            if meth == "filter" and adt == OPTION and cl[0] != "fn":
                 # Some(v) if pred(&v) => Some(v), otherwise None
                 keep_ = self.new_local("bool")
                 r = self.new_local("&?payload")
